@@ -32,7 +32,7 @@ import (
 // Mirrored by lean/Driver/FA.lean (model lean/Gnmi/Model/FakeAgent.lean).
 //
 //	new <sync 0|1> <disable_eof 0|1> <delay 0|1> <gen n|c|r|f> <seed>:<draws> <item>*   -> ok
-//	sub <via p|g> <mode s|o|p> <target -|str> <limit> <polls>   -> [<response>,...]/<end>
+//	sub <via p|g|s> <mode s|o|p> <target -|str> <limit> <polls>   -> [<response>,...]/<end>
 //	bad <via p|g> <eof|nosub|err:<code>>                        -> rejected:code<N>
 //	clients                                                      -> <n>
 //
@@ -51,8 +51,10 @@ import (
 // <body> = ~ or ;-joined u<path>=<tv> / d<path>), E (update wrapper, nil notification), s0/s1
 // (sync response), e (no response set).
 type faComp struct {
-	agent *fgnmi.Agent
-	conn  *grpc.ClientConn
+	agent  *fgnmi.Agent
+	conn   *grpc.ClientConn
+	cfg    *fpb.Config
+	viaSet bool // the next in-process subscriber is a Client created for another configuration and given this one with SetConfig
 }
 
 func init() { components["fa"] = &faComp{} }
@@ -311,13 +313,31 @@ func (c *faComp) inProcess(first *gpb.SubscribeRequest, firstE error, limit, pol
 	fin := make(chan struct{})
 	var err error
 	panicked := false
+	var own *fgnmi.Client
+	if c.viaSet {
+		own = fgnmi.NewClient(&fpb.Config{Target: "other", Seed: c.cfg.GetSeed() + 7777})
+		own.SetConfig(c.cfg)
+	}
 	go func() {
 		defer close(fin)
 		defer func() {
 			if r := recover(); r != nil {
 				panicked = true
+				if os.Getenv("VERIF_FA_DEBUG") != "" {
+					buf := make([]byte, 1<<14)
+					fmt.Fprintf(os.Stderr, "fa: panic %v\n%s\n", r, buf[:runtime.Stack(buf, false)])
+				}
 			}
 		}()
+		if c.viaSet {
+			// what Agent.Subscribe does, on a Client that was created for ANOTHER configuration (another seed, no
+			// values) and handed the agent's configuration afterwards: the generator a Run builds is the one of
+			// the configuration in force — two generators built from one configuration and seed emit the same
+			// sequence however the client came by it (seeded change c20_seed11: the seed cached at NewClient)
+			defer own.Close()
+			err = own.Run(st)
+			return
+		}
 		err = c.agent.Subscribe(st)
 	}()
 	finish := func(end string) string {
@@ -336,7 +356,10 @@ func (c *faComp) inProcess(first *gpb.SubscribeRequest, firstE error, limit, pol
 	}
 	release := func(end string) string {
 		// let the parked sender go: Close (cancel token / canceled flag), then a poll token
-		cl := fgnmi.VerifLastClient(c.agent)
+		cl := own
+		if cl == nil {
+			cl = fgnmi.VerifLastClient(c.agent)
+		}
 		cl.Close()
 		fgnmi.VerifPoll(cl)
 		select {
@@ -500,6 +523,7 @@ func (c *faComp) Run(args []string) string {
 			return "new-failed"
 		}
 		c.agent = a
+		c.cfg = cfg
 		return "ok"
 	case "sub":
 		if len(args) != 6 || c.agent == nil {
@@ -511,6 +535,8 @@ func (c *faComp) Run(args []string) string {
 		if args[1] == "g" {
 			return c.overGRPC(req, limit)
 		}
+		c.viaSet = args[1] == "s"
+		defer func() { c.viaSet = false }()
 		return c.inProcess(req, nil, limit, polls)
 	case "bad":
 		if len(args) != 3 || c.agent == nil {
@@ -626,6 +652,8 @@ func faSubs(r *rand.Rand, deof, inProcOnly bool, total int) []string {
 		via := "p"
 		if !deof && mode != "p" && !inProcOnly && r.Intn(3) == 0 {
 			via = "g"
+		} else if r.Intn(5) == 0 {
+			via = "s" // a Client created for another configuration and given this one with SetConfig
 		}
 		seq = append(seq, fmt.Sprintf("sub %s %s %s %d %d", via, mode, target, limit, polls))
 		if r.Intn(8) == 0 {
